@@ -259,7 +259,7 @@ def random_history(rnd: random.Random, prop: str, length: int) -> tuple[dict, li
             if prop == "C11":
                 it = rnd.choice([3, 3, 3, 0, 11])
             elif prop in ("C07", "C08", "C12"):
-                it = rnd.choice([wake_t, wake_t, wake_t, 22, 32, 0, 18])
+                it = rnd.choice([wake_t, wake_t, wake_t, 22, 32, 0, 18, 14, 2])
             elif prop == "C05":
                 it = rnd.choice([2, 2, -1, -15] + list(range(0, 36)))
             else:
